@@ -297,6 +297,15 @@ func judgeSend(id *identity, rq *request, r runResult, before, after map[string]
 	if len(others) > 0 {
 		res.note(ph + ": unexpected files written: " + strings.Join(others, ","))
 	}
+	if c.Tamper != "" && name != "" {
+		what := fmt.Sprintf("%s: the stored transaction of the first owned output does not hash to the id it is stored under (altered, %s format), yet a transaction file (%s) was written", ctx, c.Tamper, name)
+		if t, err := decodeTxFile(content); err == nil {
+			what += fmt.Sprintf(" with output values %v", outValues(t))
+		}
+		res.fail(ph, "altered-balance-file/tx-written/"+c.Tamper, what)
+		res.classes = append(res.classes, lb+":written-from-altered-file")
+		return
+	}
 	if name == "" {
 		// nothing written
 		cls := "refused"
